@@ -33,6 +33,11 @@ type goImporterConfig struct {
 	debugImports bool
 	debugPrint   func(string)
 	buildContext *build.Context
+
+	// shareCachedPackages makes the source importer start from the packages
+	// the engine has already imported, so the packages it type-checks refer
+	// to the same dependencies as everything loaded before.
+	shareCachedPackages bool
 }
 
 func newGoImporter(state *engineState, config goImporterConfig) *goImporter {
@@ -44,7 +49,7 @@ func newGoImporter(state *engineState, config goImporterConfig) *goImporter {
 		defaultImporter: importer.Default(),
 		buildContext:    config.buildContext,
 	}
-	imp.initSourceImporter()
+	imp.initSourceImporter(config.shareCachedPackages)
 	return imp
 }
 
@@ -84,12 +89,16 @@ func (imp *goImporter) Import(path string) (*types.Package, error) {
 	return nil, defaultErr
 }
 
-func (imp *goImporter) initSourceImporter() {
+func (imp *goImporter) initSourceImporter(shareCachedPackages bool) {
 	if imp.buildContext == nil {
 		if imp.debugImports {
 			imp.debugPrint("using build.Default context")
 		}
 		imp.buildContext = &build.Default
 	}
-	imp.srcImporter = xsrcimporter.New(imp.buildContext, imp.fset)
+	var packages map[string]*types.Package
+	if shareCachedPackages {
+		packages = imp.state.CachedPackages()
+	}
+	imp.srcImporter = xsrcimporter.NewWithPackages(imp.buildContext, imp.fset, packages)
 }
